@@ -85,6 +85,21 @@ func (g *G) Var(ty *m.Type) *m.Expr {
 	return m.V(name)
 }
 
+// FreshVar binds a new variable of type ty; when v is not nil it becomes the
+// variable's sample value (it must be of type ty).
+func (g *G) FreshVar(ty *m.Type, v *m.Val) *m.Expr {
+	name := "v" + strconv.Itoa(len(g.names)+100)
+	if len(g.names) < len(varPool) {
+		name = varPool[len(g.names)]
+	}
+	g.bind(name, ty)
+	if v != nil {
+		g.Vals[name] = v
+		g.Env[name] = v.T
+	}
+	return m.V(name)
+}
+
 func (g *G) bind(name string, ty *m.Type) {
 	// the binding's own written field order is drawn independently of ty's
 	vt := PermuteType(g.T, ty)
